@@ -1,7 +1,7 @@
 (* Props/C18.v — property C18: the convex-hull routines return the true hull.
    Only statements, each closed by `exact`, with its assumptions printed. *)
 From Coq Require Import Reals ZArith List Arith Bool Permutation PrimFloat.
-From Knee Require Import Num NumFloat NumR NpList Model.Hull Model.HullExact Proofs.ListFacts Proofs.HullScan Proofs.HullFacts Proofs.HullCorrect.
+From Knee Require Import Num NumFloat NumR NpList Model.Hull Model.HullExact Proofs.ListFacts Proofs.HullScan Proofs.HullFacts Proofs.HullCorrect Proofs.HullExactFacts.
 Import ListNotations.
 
 (* ---- Tier S: every Num, every orientation oracle cc (so: the doubles _ccw really computes, NaN included) *)
@@ -83,6 +83,31 @@ Theorem C18_upper_hull_unique : forall (pts : list (R * R)) out,
   @convexb RNum (@negt RNum) pts out = true -> out = @graham_scan_upper RNum pts.
 Proof. exact upper_hull_unique. Qed.
 Print Assumptions C18_upper_hull_unique.
+
+(* the judge evaluates the geometric predicates in exact integer arithmetic (binary64 coordinates scaled by a power
+   of two): that evaluation IS the real-number predicate of the theorems above on the same points *)
+Theorem C18_lower_geomb_exact : forall (zpts : list (Z * Z)) out,
+  @lower_geomb ZNum zpts out = @lower_geomb RNum (map IZRp zpts) out.
+Proof. exact lower_geomb_exact. Qed.
+Print Assumptions C18_lower_geomb_exact.
+
+Theorem C18_upper_geomb_exact : forall (zpts : list (Z * Z)) out,
+  @upper_geomb ZNum zpts out = @upper_geomb RNum (map IZRp zpts) out.
+Proof. exact upper_geomb_exact. Qed.
+Print Assumptions C18_upper_geomb_exact.
+
+(* hence on integer (= dyadic) coordinates the EXACT model returns the true hull chain *)
+Theorem C18_lower_hull_correct_exact : forall zpts : list (Z * Z),
+  @x_increasing ZNum zpts = true -> 2 <= length zpts ->
+  @lower_geomb ZNum zpts (@graham_scan_lower ZNum zpts) = true.
+Proof. exact lower_hull_correct_exact. Qed.
+Print Assumptions C18_lower_hull_correct_exact.
+
+Theorem C18_upper_hull_correct_exact : forall zpts : list (Z * Z),
+  @x_increasing ZNum zpts = true -> 2 <= length zpts ->
+  @upper_geomb ZNum zpts (@graham_scan_upper ZNum zpts) = true.
+Proof. exact upper_hull_correct_exact. Qed.
+Print Assumptions C18_upper_hull_correct_exact.
 
 (* non-vacuity: concrete inputs meeting the hypotheses, evaluated (exact integers / doubles) *)
 Example C18_example_chain :
